@@ -193,6 +193,50 @@ class Terms(object):
         t = Terms(nested, helpers=self.helpers, outer=outer)
         return _Inner(t, sub, call, host)
 
+    def search_loop(self):
+        """If this function is a search loop -- ``for x in it: if c: return
+        True`` followed by ``return False`` (or the dual) -- its value as
+        the equivalent any(...) / all(...) term, else None."""
+        fn = self.fn
+        rets = [n for n in ast.walk(fn) if isinstance(n, ast.Return) and
+                _owner(n, fn)]
+        loops = [n for n in fn.body if isinstance(n, ast.For)]
+        if len(rets) != 2 or len(loops) != 1 or loops[0].orelse:
+            return None
+        lp = loops[0]
+        inner = [r for r in rets if _inside_fn(r, lp)]
+        last = fn.body[-1]
+        if len(inner) != 1 or last not in rets or last is inner[0] or \
+                fn.body.index(lp) != len(fn.body) - 2:
+            return None
+        vi, vl = inner[0].value, last.value
+        if not (isinstance(vi, ast.Constant) and isinstance(vl, ast.Constant)
+                and isinstance(vi.value, bool) and
+                isinstance(vl.value, bool) and vi.value != vl.value):
+            return None
+        if any(isinstance(n, (ast.Break, ast.For, ast.While))
+               for n in ast.walk(lp) if n is not lp):
+            return None
+        n = self.cfg.node_of(inner[0])
+        head = self.cfg.loop_head[id(lp)]
+        it = self.term(lp.iter, head)
+        conds = []
+        for a in self.cfg.nodes:
+            if a.kind == "assume" and a.ast is not None and \
+                    _inside_fn(a.ast, lp) and self.cfg.dominates(a, n):
+                conds.append(self.cond(a.ast, a, a.polarity))
+        if not conds:
+            return None
+        parts = tuple(c if p_ else ("not", c) for c, p_ in conds)
+        body = parts[0] if len(parts) == 1 else ("and",) + parts
+        if vi.value:        # found -> True : any(cond)
+            return ("call", ("global", "any"),
+                    (("genexp", body, ((it, ()),)),), ())
+        # found -> False : all(not cond)
+        neg = body[1] if body[0] == "not" else ("not", body)
+        return ("call", ("global", "all"),
+                (("genexp", neg, ((it, ()),)),), ())
+
     def filtered(self, t):
         """How the collection ``t`` is populated, whichever way it is written:
         a comprehension, or a fresh set/list that loops add to.  Returns a list
@@ -300,6 +344,7 @@ class Terms(object):
                     out.append(("some" if pol else "none", it, cs))
                 else:
                     out.append(("all" if pol else "notall", it, cs))
+        out = [_retarget(q) for q in out]
         cfg = self.cfg
         dom = cfg.dominators()[node.id]
         for lid, head in cfg.loop_head.items():
@@ -330,11 +375,8 @@ class Terms(object):
             it = self.term(lp.iter, head)
             cs = [self.cond(a.ast, a, a.polarity) for a in gates]
             # "none satisfies C" is  "all satisfy not C"
-            out.append(("none", it, [(c, not p_) for c, p_ in cs])
-                       if len(cs) == 1 else ("allof", it, cs))
-            if len(cs) > 1:
-                for c, p_ in cs:
-                    pass
+            out.append(_retarget(("none", it, [(c, not p_) for c, p_ in cs])
+                                 if len(cs) == 1 else ("allof", it, cs)))
         return out
 
     def must_pass(self, src, pred, targets=None):
@@ -516,11 +558,22 @@ class Terms(object):
         are values: a fact about a value stays true)."""
         out = []
         dom = self.cfg.dominators()[node.id]
+        valid = None
         for nid in sorted(dom):
             a = self.cfg.nodes[nid]
             if a.kind != "assume" or a is node:
                 continue
-            out.append(self.cond(a.ast, a, a.polarity))
+            c = self.cond(a.ast, a, a.polarity)
+            if any(st[0] in ("phi", "rec", "attrv", "opaque")
+                   for st in subterms(c[0])):
+                # a merged / loop-carried / updated value: the same term at
+                # two program points need not be the same value; keep the
+                # fact only if nothing it mentions is re-defined in between
+                if valid is None:
+                    valid = set(id(x[2]) for x in self.flow.facts(node))
+                if id(a) not in valid:
+                    continue
+            out.append(c)
         return out
 
     # -- variables -------------------------------------------------------------
@@ -599,7 +652,7 @@ class Terms(object):
         return base
 
     def _elem(self, t):
-        if t[0] == "new":
+        if t[0] == "new" and t[2][0] in ("list", "set") and len(t[2]) > 1:
             t = t[2]
         if t[0] == "call" and t[1] == ("global", "enumerate") and \
                 len(t[2]) >= 1:
@@ -610,7 +663,6 @@ class Terms(object):
             return _phi(t[1:])
         if t[0] == "call" and t[1] in (("global", "sorted"),
                                        ("global", "reversed"),
-                                       ("global", "list"),
                                        ("global", "tuple"),
                                        ("global", "iter")) and \
                 len(t[2]) == 1 and not t[3]:
@@ -667,6 +719,16 @@ class Terms(object):
                 # x[0] and the first target of ``a, b = x`` are one value
                 n = self._arity(base)
                 return self._comp(base, idx[1], n if n is not None else -1)
+            if idx[0] == "elem" and idx[1][0] == "call" and \
+                    idx[1][1] == ("global", "range") and not idx[1][3] and \
+                    len(idx[1][2]) in (1, 2):
+                # x[k] for k over range(a, b): an element of x[a:b]
+                r = idx[1][2]
+                lo, hi = (("const", 0), r[0]) if len(r) == 1 else r
+                if lo == ("const", 0):
+                    lo = ("const", None)
+                return ("elem", ("item", base,
+                                 ("slice", lo, hi, ("const", None))))
             return ("item", base, idx)
         if isinstance(e, ast.UnaryOp):
             v = T(e.operand, node, env)
@@ -768,7 +830,10 @@ class Terms(object):
         if isinstance(s, ast.Slice):
             f = lambda x: ("const", None) if x is None else \
                 self._term(x, node, env)   # noqa: E731
-            return ("slice", f(s.lower), f(s.upper), f(s.step))
+            lo = f(s.lower)
+            if lo == ("const", 0):
+                lo = ("const", None)
+            return ("slice", lo, f(s.upper), f(s.step))
         return self._term(s, node, env)
 
     def _binop(self, op, a, b):
@@ -878,9 +943,14 @@ class Terms(object):
             if any(isinstance(n, (ast.Yield, ast.YieldFrom))
                    for n in ast.walk(callee) if _owner(n, callee)):
                 return None
-            if len(rets) != 1 or rets[0].value is None:
+            if len(rets) == 2:
+                rt = ct.search_loop()
+                if rt is None:
+                    return None
+            elif len(rets) != 1 or rets[0].value is None:
                 return None
-            rt = ct.term(rets[0].value)
+            else:
+                rt = ct.term(rets[0].value)
         except AnalysisError:
             return None
         finally:
@@ -1041,6 +1111,31 @@ def mk_cmp(opn, a, b):
 
 def is_none(t):
     return mk_cmp("Is", t, ("const", None))
+
+
+def _retarget(q):
+    """A quantifier over range(a, b) whose condition only looks at x[k] is a
+    quantifier over the elements of x[a:b]."""
+    kind, it, conds = q
+    if it[0] == "call" and it[1] == ("global", "range") and not it[3] and \
+            len(it[2]) in (1, 2):
+        r = it[2]
+        lo, hi = (("const", 0), r[0]) if len(r) == 1 else r
+        if lo == ("const", 0):
+            lo = ("const", None)
+        sl = ("slice", lo, hi, ("const", None))
+        cands = set()
+        direct = False
+        for c, _ in conds:
+            for st in subterms(c):
+                if st == ("elem", it):
+                    direct = True
+                if st[0] == "elem" and st[1][0] == "item" and \
+                        st[1][2] == sl:
+                    cands.add(st[1])
+        if len(cands) == 1 and not direct:
+            return kind, list(cands)[0], conds
+    return q
 
 
 def unsite(t):
